@@ -161,6 +161,11 @@ def main(modname, prop, tier, seed=0, replay_path=None, procs=None, only_case=No
     if seed:
         import random
         random.Random(seed).shuffle(cases)
+    # sizing aid (not used by any registered command): run an evenly spaced sample of the cases
+    lim = int(os.environ.get("VERIF_CASE_SAMPLE", "0"))
+    if lim and len(cases) > lim:
+        print(f"SAMPLED: {lim} of {len(cases)} cases (sizing run, not a verdict on the tier)")
+        cases = cases[::len(cases) // lim][:lim]
     procs = procs or min(int(os.environ.get("VERIF_PROCS", "16")), max(1, len(cases)))
     nprof = getattr(mod, "PROFILE_CASES", 4)
     jobs = [(modname, c, i, i < nprof) for i, c in enumerate(cases)]
